@@ -224,6 +224,12 @@ func opSequence(call *env.Call) []faultPos {
 
 // c10Judge applies the fail-closed clauses to a call in which at least one fault fired.
 func c10Judge(r *core.Run, wl string, idx int, class string, sc *c10Scenario, call *env.Call, faults []faultPos) {
+	c10JudgeOpt(r, wl, idx, class, sc, call, faults, false)
+}
+
+// c10JudgeOpt: with anyRefusal a plain HTTP error of any class (4xx as well) counts as an error reply - used for a
+// request that made no failing storage call itself (it was refused, or shares a neighbour's failed read).
+func c10JudgeOpt(r *core.Run, wl string, idx int, class string, sc *c10Scenario, call *env.Call, faults []faultPos, anyRefusal bool) {
 	desc := map[string]any{"scenario": sc.Name, "faults": fmt.Sprint(faults), "sig_alg": sc.Opts.SigAlg, "meta_sig_alg": sc.Opts.MetaSigAlg}
 	viol := func(clause, reason string) {
 		r.Violate(core.Violation{Clause: clause, Class: class, Reason: reason, Workload: wl, Index: idx, Case: desc, Observed: call.Describe()})
@@ -260,7 +266,7 @@ func c10Judge(r *core.Run, wl string, idx int, class string, sc *c10Scenario, ca
 	if d.Status == 303 {
 		viol("login_redirect_after_fault", "browser sent on to login although a storage operation failed: "+d.Location)
 	}
-	isErr := d.Status >= 500 || (d.Msg != nil && d.Msg.StatusCode != "" && !d.Success())
+	isErr := d.Status >= 500 || (d.Msg != nil && d.Msg.StatusCode != "" && !d.Success()) || (anyRefusal && d.Status >= 400 && d.Msg == nil)
 	if !isErr {
 		viol("not_an_error_reply", fmt.Sprintf("status %d kind %s is neither HTTP 5xx nor a non-Success SAML response", d.Status, d.Kind))
 	}
@@ -485,7 +491,14 @@ func c10Concurrent(scs []c10Scenario) func(r *core.Run, idx int, rng *rand.Rand)
 					class := fmt.Sprintf("%s|%s|%s|concurrent|request_%d", sc.Name, op, kind, i+1)
 					r.Eval(class)
 					r.Count("requests_judged_beside_a_concurrent_fault", 1)
-					c10Judge(r, wl, idx, class, sc, call, []faultPos{{Op: op, Occ: 0, Kind: kind}})
+					// did this request meet the failing operation itself?
+					own := false
+					for _, ev := range call.Events {
+						if ev.Op == op && ev.Err {
+							own = true
+						}
+					}
+					c10JudgeOpt(r, wl, idx, class, sc, call, []faultPos{{Op: op, Occ: 0, Kind: kind}}, !own)
 				}
 			}
 		}
